@@ -7,5 +7,6 @@ import Props.C05
 #print axioms Webauthn.Props.C10.backup
 #print axioms Webauthn.Props.C10.auth_gate
 #print axioms Webauthn.Props.C10.layout
+#print axioms Webauthn.Props.C10.reg_gate
 #print axioms Webauthn.Props.C02.sound
 #print axioms Webauthn.Props.C05.reg_fidelity
